@@ -637,50 +637,13 @@ func runC05(c *Ctx) {
 		}
 	}()
 
-	// ---- C05.alias
-	rule = "C05.alias"
-	c.R.Rule(rule, "the decompressed-data buffer never aliases the raw frame buffer: every value stored to Reader.data derives from Reader.data itself (append to data[:0], DecodeAll into data[:0]) and not from Reader.raw - otherwise the next frame is decompressed in place over its own source")
-	func() {
-		n := 0
-		bad := false
-		for _, fn := range []*ssa.Function{rb, rd} {
-			for _, b := range fn.Blocks {
-				for _, in := range b.Instrs {
-					s, ok := in.(*ssa.Store)
-					if !ok || readerField(s.Addr) != "data" {
-						continue
-					}
-					n++
-					fromRaw := core.DependsOn(s.Val, func(x ssa.Value) bool { return readerField(x) == "raw" }, false)
-					// DecodeAll(src, dst): only dst flows to the result
-					if cl, ok := s.Val.(*ssa.Call); ok {
-						if f := core.CalleeFunc(cl); f != nil && f.Name() == "DecodeAll" {
-							dst := cl.Call.Args[len(cl.Call.Args)-1]
-							fromRaw = core.DependsOn(dst, func(x ssa.Value) bool { return readerField(x) == "raw" }, false)
-						}
-					}
-					if ap, ok := s.Val.(*ssa.Call); ok {
-						if bi, ok := ap.Call.Value.(*ssa.Builtin); ok && bi.Name() == "append" {
-							// append copies its second operand: only the base can alias
-							fromRaw = core.DependsOn(ap.Call.Args[0], func(x ssa.Value) bool { return readerField(x) == "raw" }, false)
-						}
-					}
-					if fromRaw {
-						bad = true
-						c.R.Bad(rule, sprintf("%s/store#%d", core.FuncName(fn), n), cfg, p.Pos(s.Pos()), "Reader.data is made to share memory with Reader.raw: a later compressed frame that fits the capacity is decompressed over its own input")
-					}
-				}
-			}
-		}
-		if !bad {
-			c.R.Ok(rule, "compress.Reader.data", cfg, p.Pos(rb.Pos()), sprintf("%d stores, none derived from raw", n))
-		}
-	}()
+	ruleReaderAlias(c, p, "C05.alias")
 
 	ruleCompressDst(c, p, "C05.dst")
 	ruleMethodTable(c, p, "C05.methods")
 	ruleCodecLimits(c, p, "C05.codec-limits")
 	ruleCompressibleArg(c, p, "C05.compressible")
+	ruleCompressibleTable(c, p, "C05.compressible-table")
 
 	// ---- C05.frame
 	ruleFrameLayout(c, p, "C05.frame", rb, wr)
@@ -1967,4 +1930,50 @@ func ruleCompressInPlace(c *Ctx, p *core.Program, rule string) {
 	}
 	c.R.Count("in-place Compress calls in package ch", n)
 	c.R.Floor(rule, cfg, n, 1)
+}
+
+// ruleReaderAlias (C05.alias, C03.alias): the decompressed-data buffer of
+// compress.Reader never shares memory with its raw frame buffer.
+func ruleReaderAlias(c *Ctx, p *core.Program, rule string) {
+	cfg := p.Cfg.Name
+	rb := p.Method(core.PkgCompress, "Reader", "readBlock")
+	rd := p.Method(core.PkgCompress, "Reader", "Read")
+	if !c.must(p, "compress.Reader.readBlock / Read", rb != nil && rd != nil) {
+		return
+	}
+	c.R.Rule(rule, "the decompressed-data buffer never aliases the raw frame buffer: every value stored to Reader.data derives from Reader.data itself (append to data[:0], DecodeAll into data[:0]) and not from Reader.raw - otherwise the next frame is decompressed in place over its own source")
+	n := 0
+	bad := false
+	for _, fn := range []*ssa.Function{rb, rd} {
+		for _, b := range fn.Blocks {
+			for _, in := range b.Instrs {
+				s, ok := in.(*ssa.Store)
+				if !ok || readerField(s.Addr) != "data" {
+					continue
+				}
+				n++
+				fromRaw := core.DependsOn(s.Val, func(x ssa.Value) bool { return readerField(x) == "raw" }, false)
+				// DecodeAll(src, dst): only dst flows to the result
+				if cl, ok := s.Val.(*ssa.Call); ok {
+					if f := core.CalleeFunc(cl); f != nil && f.Name() == "DecodeAll" {
+						dst := cl.Call.Args[len(cl.Call.Args)-1]
+						fromRaw = core.DependsOn(dst, func(x ssa.Value) bool { return readerField(x) == "raw" }, false)
+					}
+				}
+				if ap, ok := s.Val.(*ssa.Call); ok {
+					if bi, ok := ap.Call.Value.(*ssa.Builtin); ok && bi.Name() == "append" {
+						// append copies its second operand: only the base can alias
+						fromRaw = core.DependsOn(ap.Call.Args[0], func(x ssa.Value) bool { return readerField(x) == "raw" }, false)
+					}
+				}
+				if fromRaw {
+					bad = true
+					c.R.Bad(rule, sprintf("%s/store#%d", core.FuncName(fn), n), cfg, p.Pos(s.Pos()), "Reader.data is made to share memory with Reader.raw: a later compressed frame that fits the capacity is decompressed over its own input")
+				}
+			}
+		}
+	}
+	if !bad {
+		c.R.Ok(rule, "compress.Reader.data", cfg, p.Pos(rb.Pos()), sprintf("%d stores, none derived from raw", n))
+	}
 }
